@@ -105,17 +105,39 @@ func formatFile(path string) error {
 	f.Close()
 
 	if *writeInPlace {
-		f, err := os.Create(path)
-		if err != nil {
-			return fmt.Errorf("Failed to open path to rewrite: %w", err)
-		}
-		_, err = f.Write(out.Bytes())
-		if err != nil {
+		if err := writeFileAtomic(path, out.Bytes()); err != nil {
 			return fmt.Errorf("Failed to write to output: %w", err)
 		}
-		f.Close()
 	} else {
 		fmt.Println(out.String())
 	}
 	return nil
+}
+
+// writeFileAtomic replaces path with data without ever exposing a partial file: the data
+// goes to a temporary file in the same directory which is then renamed over path. If
+// anything fails, path keeps its previous contents.
+func writeFileAtomic(path string, data []byte) error {
+	mode := os.FileMode(0644)
+	if info, err := os.Stat(path); err == nil {
+		mode = info.Mode().Perm()
+	}
+	tmp, err := os.CreateTemp(filepath.Dir(path), "."+filepath.Base(path)+".tmp*")
+	if err != nil {
+		return err
+	}
+	_, err = tmp.Write(data)
+	if err == nil {
+		err = tmp.Chmod(mode)
+	}
+	if closeErr := tmp.Close(); err == nil {
+		err = closeErr
+	}
+	if err == nil {
+		err = os.Rename(tmp.Name(), path)
+	}
+	if err != nil {
+		os.Remove(tmp.Name())
+	}
+	return err
 }
